@@ -496,6 +496,30 @@ func runTxMutCase(c TxMutCase) Outcome {
 		}
 		o.Evals++
 	}
+	// the node's mempool holds whatever CheckTx admitted, some of it stale by now (sequence consumed, height passed):
+	// the real proposal builder must return, and what it builds must be accepted and executed
+	{
+		blk := sim.Chain.NextBlock(5*time.Second, -1, nil, nil)
+		pr, err := sim.Node.Prepare(blk.PrepareReq(nil))
+		if err != nil {
+			o.Fail = failf("no-crash", "prepare-failed-or-hung", "PrepareProposal over the mempool left by the case: %v", err)
+			return o
+		}
+		o.Classes = append(o.Classes, fmt.Sprintf("final-prepare/txs=%d", min(len(pr.Txs), 3)))
+		if len(pr.Txs) > 0 {
+			if _, m, _ := decodeEthBlockTx(sim.Node, pr.Txs[0]); m != nil {
+				r, err := sim.Exec(blk, pr.Txs, true)
+				if err != nil {
+					o.Fail = failf("blocks-never-fail", "block-failed-after-malformed-input", "the node's own proposal: %v", err)
+					return o
+				}
+				if r.Resp.TxResults[0].Code != 0 {
+					o.Fail = failf("blocks-never-fail", "honest-eth-message-failed", "the node's own proposal: %s", r.Resp.TxResults[0].Log)
+					return o
+				}
+			}
+		}
+	}
 	// a few more honest blocks
 	for i := 0; i < 2; i++ {
 		r, err := sim.Step(world.StepOpts{DT: 5 * time.Second, Proposer: -1})
@@ -532,7 +556,7 @@ func TestC19_TxMutation(t *testing.T) {
 			return c
 		},
 		Run:  runTxMutCase,
-		Rule: "on a live chain with pending and processing withdrawals: a well-formed message of each of the 11 relayer/bridge/block message types receives one structural mutation (nil vote / key / payload, bitmap lengths 1..255, signature lengths 0..96, nil and mis-sized list elements, over-long lists, garbage Bitcoin transactions and headers, mis-sized hashes and addresses, extreme integers, malformed request lists, count byte 255, due system transactions dropped / the list cut below the count byte while refunds are due) and/or a byte-level mutation of the signed transaction (truncate, bit flip, append, random bytes, repeated chunk) and is delivered through CheckTx, ProcessProposal (as a later and as the first transaction) or FinalizeBlock; the process must stay alive (write-ahead case file), every call must return, FinalizeBlock must not fail in that block nor in the following ones, and a transaction with a non-zero code must leave the four module stores identical to the twin execution without it; non-trivial = the input passed decoding and reached a handler (or was applied); evaluations count inputs; one more input kind registers a fresh bridge key twice in one transaction (the second message fails, so the transaction fails as a whole) and then requires the same registration, alone, to be accepted",
+		Rule: "on a live chain with pending and processing withdrawals: a well-formed message of each of the 11 relayer/bridge/block message types receives one structural mutation (nil vote / key / payload, bitmap lengths 1..255, signature lengths 0..96, nil and mis-sized list elements, over-long lists, garbage Bitcoin transactions and headers, mis-sized hashes and addresses, extreme integers, malformed request lists, count byte 255, due system transactions dropped / the list cut below the count byte while refunds are due) and/or a byte-level mutation of the signed transaction (truncate, bit flip, append, random bytes, repeated chunk) and is delivered through CheckTx, ProcessProposal (as a later and as the first transaction) or FinalizeBlock; the process must stay alive (write-ahead case file), every call must return, FinalizeBlock must not fail in that block nor in the following ones, and a transaction with a non-zero code must leave the four module stores identical to the twin execution without it; non-trivial = the input passed decoding and reached a handler (or was applied); evaluations count inputs; at the end of every case the real PrepareProposal runs over the mempool the case left behind (stale transactions included), must return within the watchdog time and its proposal must be accepted and executed; one more input kind registers a fresh bridge key twice in one transaction (the second message fails, so the transaction fails as a whole) and then requires the same registration, alone, to be accepted",
 	})
 }
 
